@@ -22,7 +22,9 @@
    "all trees x all truth assignments x both default      forall t, sigma, and any default_operation
     operations"                                            class d (only `d is OrOperation` matters)
    mechanism "names to matching / other path sets"        C16_matching_from_names, C16_named_elements
-   all of it together with the C15 names                  C16_end_to_end *)
+   all of it together with the C15 names                  C16_end_to_end
+   results of earlier calls stay valid (one instance,     C16_calls_independent (pure model) + the
+    many calls)                                            call-history oracle of harness/c16.py *)
 Require Import Base Decimal Tree GenTree GenVisitors GenNaming Visitor Naming TreeInd
                NamingProofs Propagate PropagateSpec PropagateProofs.
 
@@ -99,7 +101,23 @@ Definition C16_end_to_end_statement : Prop :=
     propagate d (fst (report sigma t (map snd m))) (snd (report sigma t (map snd m))) t = (ok, ko) ->
     matching_iff_true d sigma t ok ko.
 
+(* history clause: call number k of one propagator instance returns what a fresh propagator returns
+   for those arguments (trivial in the pure model: the code keeps nothing on the instance between
+   calls).  What ties it to the code: the call-history oracle of harness/c16.py — one instance per
+   default operation reused for 5 calls in a row, every returned pair kept and re-checked after the
+   history against a copy taken right after its own call and against boolean evaluation, and
+   compared with a fresh instance on every call. *)
+Definition C16_calls_independent_statement : Prop :=
+  forall d calls k t mt ot, nth_error calls k = Some (t, mt, ot) ->
+    nth_error (propagate_calls d calls) k = Some (propagate d mt ot t).
+
 (* ---- theorems *)
+
+Theorem C16_calls_independent : C16_calls_independent_statement.
+Proof.
+  intros d calls k t mt ot H. unfold propagate_calls.
+  rewrite (map_nth_error _ _ _ H). reflexivity.
+Qed.
 
 Theorem C16_classified_once : C16_classified_once_statement.
 Proof. intros d t M O ok ko H. exact (propagate_partition d M O t ok ko H). Qed.
@@ -216,3 +234,4 @@ Print Assumptions C16_matching_iff_true_refuted.
 Print Assumptions C16_matching_from_names.
 Print Assumptions C16_named_elements.
 Print Assumptions C16_end_to_end.
+Print Assumptions C16_calls_independent.
